@@ -15,9 +15,24 @@ Conditioning: hyper-parameters are resampled until cond(K_xx + S) <= 1e4, so
 that the double-precision Cholesky / triangular solves are accurate to
 ~1e-11 * scale and the 1e-7 tolerance never decides a correct run.
 
+Kernel / mean values as functions of the COORDINATES (Properties/C02Kernel.v,
+Proofs/GpTranslationProofs.v): the matrices K_xx, K_qx, K_qq and the vectors mu,
+mu_q that the kernel / mean objects return INSIDE the regressor are compared,
+entry by entry, with the real-valued models of covariance.py / mean.py
+(gp_Kxx, gp_Kqx, gp_Kqq, gp_mu, gp_muq) by coq-interval goals in
+coq/gen/C02/kgoals_*.v.  Two fifths of the configurations are run a second time
+with a large common offset (2^10 .. 2^31, exact in double) added to every
+training and query point (and to the change-point locations): data such as
+time stamps or map coordinates, whose magnitude is huge compared with the
+length-scales.  Theorem C02_gp_inputs_translation_invariant says the posterior
+cannot change.
+
 If anything disagrees, the property itself is evaluated on the implementation
 (closed form in exact rationals from the implementation's own matrices,
-variance bounds, training-order permutation, y_err versus diag y_cov).
+variance bounds, training-order permutation, y_err versus diag y_cov, and -- for
+offset data -- the closed form with the kernel matrices of the same data moved
+back to the origin; the closed form with cross-covariances taken from
+build_covariance on training + query points).
 """
 from __future__ import annotations
 
@@ -28,6 +43,7 @@ from fractions import Fraction
 import numpy as np
 
 from lib import common as C
+from lib import interval as I
 from lib import matrix as MX
 
 PROP = "C02"
@@ -36,7 +52,40 @@ THEOREMS = ["C02_mean_closed", "C02_cov_closed", "C02_closed_model",
             "C02_yerr_eq_ycov", "C02_train_perm_invariant", "C02_var_bounds",
             "C02_cov_sym", "C02_ycov_list_pinned_refuted", "C02_hetero_shape_pinned_refuted"]
 
+# Properties/C02Kernel.v (stdlib Reals; audited as a second module)
+KERNEL_THEOREMS = ["C02_base_kernels_stationary", "C02_sum_stationary", "C02_changepoint_translated",
+                   "C02_sum_translated", "C02_means_stationary", "C02_gp_inputs_translation_invariant",
+                   "C02_gp_inputs_translation_invariant_stationary"]
+
+# Properties/GpRefinement.v: ListOps (what vm_compute runs) refines McOps rat (what the theorems are about)
+REFINEMENT_THEOREMS = ["GpRefinement_q2r_morphism", "GpRefinement_repr_functional", "GpRefinement_repr_Qeq",
+                       "GpRefinement_ListOps_is_instance", "GpRefinement_ops_mmul", "GpRefinement_ops_madd",
+                       "GpRefinement_ops_mopp", "GpRefinement_ops_mtr", "GpRefinement_ops_mid", "GpRefinement_ops_mconst",
+                       "GpRefinement_ops_mscal", "GpRefinement_ops_mhad", "GpRefinement_ops_mrecip", "GpRefinement_ops_mabs",
+                       "GpRefinement_ops_mdiagv", "GpRefinement_ops_mdiagof", "GpRefinement_ops_msub", "GpRefinement_ops_msum",
+                       "GpRefinement_ops_mtrace", "GpRefinement_ops_mhadsum", "GpRefinement_inverse",
+                       "GpRefinement_inverse_failure", "GpRefinement_inverse_wf", "GpRefinement_posterior",
+                       "GpRefinement_posterior_as_run", "GpRefinement_closed_forms", "GpRefinement_calculate_posterior",
+                       "GpRefinement_inverse_checked", "GpRefinement_ListOps_mmul", "GpRefinement_ListOps_inverse",
+                       "GpRefinement_ListOps_inverse_failure", "GpRefinement_ListOps_posterior",
+                       "GpRefinement_ListOps_posterior_as_run"]
+
 HEADER = MX.HEADER.format(mods="Matrix.GpModel Matrix.GpCheck")
+KCASES_HEADER = """From Coq Require Import Reals List.
+From IT Require Import Model.Slices RealModel.Kernels RealModel.Means Proofs.GpTranslationProofs.
+Import ListNotations.
+Open Scope R_scope.
+"""
+KPREAMBLE = """From Coq Require Import Reals List.
+From Interval Require Import Tactic.
+From IT Require Import Model.Slices RealModel.Kernels RealModel.Means Proofs.GpTranslationProofs.
+From ITGen Require Import C02.KCases.
+Import ListNotations.
+Open Scope R_scope.
+Ltac kcbv := cbv -[Rplus Rminus Rmult Ropp Rdiv Rinv exp ln pow IZR Rabs Rle].
+"""
+EPS = 2.0 ** -52
+MEAN_NP = {"const": lambda d: 1, "linear": lambda d: 1 + d, "quadratic": lambda d: 1 + 2 * d}
 
 OBLIGATION_NAMES = {
     0: "model could not be evaluated (an inverse failed its run-time verification)",
@@ -193,6 +242,122 @@ def contain(a, container):
     return tup(a.tolist())
 
 
+# ---------------------------------------------------------------- offset data (translations)
+def kernel_layout(spec, n, d, off=0):
+    """Walks the flat covariance hyper-parameter vector of `spec` (same order as
+    MX.kernel_hyperpars / the model's ksum, kcp).  Returns (n_params, scales, cps):
+    scales = [(index of ln l_k, k)] for every SE / RQ length-scale, cps = [(index of the
+    location, index of the width, axis)] for every change-point."""
+    k = spec[0]
+    if k == "SE":
+        return d + 1, [(off + 1 + j, j) for j in range(d)], []
+    if k == "RQ":
+        return d + 2, [(off + 2 + j, j) for j in range(d)], []
+    if k == "WN":
+        return 1, [], []
+    if k == "HN":
+        return n, [], []
+    subs = spec[1:] if k == "sum" else spec[1]
+    tot, scales, cps = 0, [], []
+    for s in subs:
+        m, sc, cp = kernel_layout(s, n, d, off + tot)
+        tot += m
+        scales += sc
+        cps += cp
+    if k == "CP":
+        for _ in range(len(subs) - 1):
+            cps.append((off + tot, off + tot + 1, spec[2]))
+            tot += 2
+    return tot, scales, cps
+
+
+def _moved(a, c, sign, what):
+    """a + sign*c row by row, asserting that the double result is the exact sum."""
+    out = np.array(a, dtype=float) + sign * np.array(c, dtype=float)[None, :]
+    for row, orow in zip(np.asarray(a, dtype=float), out):
+        for v, w, ck in zip(row, orow, c):
+            assert C.frac(w) == C.frac(v) + sign * int(ck), f"translation of {what} is not exact"
+    return out
+
+
+def _move_locations(case, hexhp, c, sign, exact):
+    n, d = case["n"], case["d"]
+    hp = list(MX.unhex(hexhp))
+    m = MEAN_NP[case["mean"]](d)
+    for loc, _, ax in kernel_layout(case["kernel"], n, d)[2]:
+        new = hp[m + loc] + sign * float(c[ax])
+        if exact:
+            assert C.frac(new) == C.frac(hp[m + loc]) + sign * int(c[ax]), "change-point location not exact"
+        hp[m + loc] = new
+    return MX.hexlist(hp)
+
+
+def translate(case, c):
+    """The same configuration with the integer vector c added to every training and
+    query point (exactly) and to every change-point location (rounded to double; the
+    origin counterpart `origin_case` subtracts c again, which is exact)."""
+    n, d, b = case["n"], case["d"], case["b"]
+    out = dict(case)
+    out["x"] = MX.hexlist(_moved(MX.unhex(case["x"], (n, d)), c, +1, "x"))
+    out["points"] = MX.hexlist(_moved(MX.unhex(case["points"], (b, d)), c, +1, "points"))
+    out["hyperpars"] = _move_locations(case, case["hyperpars"], c, +1, False)
+    if case.get("first_hyperpars"):
+        out["first_hyperpars"] = _move_locations(case, case["first_hyperpars"], c, +1, False)
+    out["shift"] = [int(v) for v in c]
+    origin_case(out)          # asserts that the way back is exact
+    return out
+
+
+def origin_case(case):
+    """The configuration of which `case` is the translate by case['shift']."""
+    c = case.get("shift")
+    if not c:
+        return case
+    n, d, b = case["n"], case["d"], case["b"]
+    out = dict(case)
+    out["x"] = MX.hexlist(_moved(MX.unhex(case["x"], (n, d)), c, -1, "x"))
+    out["points"] = MX.hexlist(_moved(MX.unhex(case["points"], (b, d)), c, -1, "points"))
+    out["hyperpars"] = _move_locations(case, case["hyperpars"], c, -1, True)
+    if case.get("first_hyperpars"):
+        out["first_hyperpars"] = _move_locations(case, case["first_hyperpars"], c, -1, False)
+    out["shift"] = None
+    return out
+
+
+def gen_shift(r, case):
+    """Integer offsets  +-[2^e, 2^(e+1)),  e in 10..30, independently per coordinate."""
+    while True:
+        c = []
+        for _ in range(case["d"]):
+            e = r.randint(10, 30)
+            c.append(r.choice([1, 1, -1]) * r.randint(1 << e, (2 << e) - 1))
+        try:
+            return translate(case, c)
+        except AssertionError:      # more than 53 bits needed: draw again
+            continue
+
+
+def cov_hyperpars(case):
+    """The covariance part of the caller's hyper-parameter vector."""
+    return MX.unhex(case["hyperpars"])[MEAN_NP[case["mean"]](case["d"]):]
+
+
+def rel_allowance(case, u, v):
+    """Relative error of one kernel value k(u, v) that round-off of the order of one ulp
+    of the COORDINATES may cause (any implementation that forms u/l, v/l or
+    (x - location)/width in double has it); 16x margin.  Negligible (<1e-11) near the
+    origin, ~1e-8 at offsets of 2^20 -- a kernel evaluated through |u|^2 + |v|^2 - 2u.v
+    is wrong by eps*(|u|/l)^2, i.e. |u| / (16 |u - v|) times more."""
+    n, d = case["n"], case["d"]
+    th = cov_hyperpars(case)
+    _, scales, cps = kernel_layout(case["kernel"], n, d)
+    lmin = [min([math.exp(th[idx]) for idx, k in scales if k == j], default=math.inf) for j in range(d)]
+    r = sum((abs(u[j]) + abs(v[j])) * abs(u[j] - v[j]) / lmin[j] ** 2 for j in range(d))
+    for _, w, ax in cps:
+        r += (abs(u[ax]) + abs(v[ax])) / abs(th[w])
+    return 16 * EPS * r
+
+
 # ---------------------------------------------------------------- running the code
 def build(case):
     n, d = case["n"], case["d"]
@@ -326,6 +491,96 @@ def coq_case(case, out):
     return "{| " + ";\n   ".join(f"{k} := {v}" for k, v in f) + " |}"
 
 
+# ---------------------------------------------------------------- Coq side: kernel / mean values from the coordinates
+def coq_kernel(spec, n, d):
+    k = spec[0]
+    if k == "SE":
+        return f"se {d}"
+    if k == "RQ":
+        return f"rq {d}"
+    if k == "WN":
+        return "wn"
+    if k == "HN":
+        return f"hn {n}"
+    if k == "sum":
+        return "ksum [" + "; ".join(coq_kernel(s, n, d) for s in spec[1:]) + "]"
+    return f"kcp {spec[2]} [" + "; ".join(coq_kernel(s, n, d) for s in spec[1]) + "]"
+
+
+def kcase_defs(case, k):
+    n, d, b = case["n"], case["d"], case["b"]
+    x = MX.unhex(case["x"], (n, d))
+    p = MX.unhex(case["points"], (b, d))
+    hp = MX.unhex(case["hyperpars"])
+    m = MEAN_NP[case["mean"]](d)
+    pts = lambda a: "[" + "; ".join("[" + "; ".join(C.cR(v) for v in row) + "]" for row in a) + "]"
+    mean = {"const": "const_mean", "linear": f"lin_mean {d}", "quadratic": f"quad_mean {d}"}[case["mean"]]
+    return "\n".join([
+        f"Definition K_{k} : kernel := {coq_kernel(case['kernel'], n, d)}.",
+        f"Definition M_{k} : meanfn := {mean}.",
+        f"Definition xs_{k} : list pt := {pts(x)}.",
+        f"Definition qs_{k} : list pt := {pts(p)}.",
+        f"Definition th_{k} : list R := [" + "; ".join(C.cR(t) for t in hp[m:]) + "].",
+        f"Definition mth_{k} : list R := [" + "; ".join(C.cR(t) for t in hp[:m]) + "].",
+    ])
+
+
+def mean_allowance(case):
+    """Absolute error of a mean-function value that an error of one ulp of the coordinates
+    in the centre x.mean() may cause (16x margin); zero for ConstantMean."""
+    n, d, b = case["n"], case["d"], case["b"]
+    if case["mean"] == "const":
+        return 0.0
+    x = MX.unhex(case["x"], (n, d))
+    p = MX.unhex(case["points"], (b, d))
+    hp = MX.unhex(case["hyperpars"])
+    xm = x.mean(axis=0)
+    cmax = np.abs(np.vstack([x, p])).max(axis=0)
+    span = np.abs(np.vstack([x, p]) - xm[None, :]).max(axis=0)
+    g = np.abs(hp[1:1 + d])
+    h = np.abs(hp[1 + d:1 + 2 * d]) if case["mean"] == "quadratic" else np.zeros(d)
+    return float(16 * EPS * (cmax * (g + 2 * h * span)).sum())
+
+
+def kernel_goals(case, out, k, r, budget):
+    """coq-interval goals: the kernel / mean values the regressor's own objects return
+    equal the real-valued models evaluated at the exact coordinates and hyper-parameters."""
+    n, d, b = case["n"], case["d"], case["b"]
+    x = MX.unhex(case["x"], (n, d))
+    p = MX.unhex(case["points"], (b, d))
+    scale = float(np.abs(out["K_xx"]).max())
+    goals = []
+
+    def add(kind, term, obs, rel, absolute, meta):
+        tol = C.frac(float(rel) * abs(float(obs)) + float(absolute))      # one double: short literals
+        gid = f"k{k}_{kind}_{len(goals)}"
+        goals.append((gid, I.goal_abs_close(term, obs, tol), dict(meta, kind=kind, case=k, obs=float(obs))))
+
+    def pick(ents, m):
+        return ents if len(ents) <= m else r.sample(ents, m)
+
+    ka = 1e-11 * scale
+    for (a, j) in pick([(a, j) for a in range(b) for j in range(n)], budget["Kqx"]):
+        add("Kqx", f"gp_Kqx K_{k} xs_{k} qs_{k} th_{k} {a} {j}", out["K_qx"][a, j],
+            1e-9 + rel_allowance(case, p[a], x[j]), ka, {"a": a, "j": j})
+    for (a, c) in pick([(a, c) for a in range(b) for c in range(a, b)], budget["Kqq"]):
+        add("Kqq", f"gp_Kqq K_{k} qs_{k} th_{k} {a} {c}", out["K_qq"][a, c],
+            1e-9 + rel_allowance(case, p[a], p[c]), ka, {"a": a, "b": c})
+    for a in pick(list(range(b)), budget["kqq_pt"]):
+        add("kqq_pt", f"gp_Kqq K_{k} qs_{k} th_{k} {a} {a}", out["kqq_pt"][a],
+            1e-9 + rel_allowance(case, p[a], p[a]), ka, {"a": a})
+    for (i, j) in pick([(i, j) for i in range(n) for j in range(i, n)], budget["Kxx"]):
+        add("Kxx", f"gp_Kxx K_{k} xs_{k} th_{k} {i} {j}", out["K_xx"][i, j],
+            1e-9 + rel_allowance(case, x[i], x[j]), ka, {"i": i, "j": j})
+    ms = max(float(np.abs(out["mu"]).max()), float(np.abs(out["muq"]).max()), 1e-6)
+    ma = 1e-11 * ms + mean_allowance(case)
+    for i in pick(list(range(n)), budget["mu"]):
+        add("mu", f"gp_mu M_{k} xs_{k} mth_{k} {i}", out["mu"][i], 1e-9, ma, {"i": i})
+    for a in pick(list(range(b)), budget["muq"]):
+        add("muq", f"gp_muq M_{k} xs_{k} qs_{k} mth_{k} {a}", out["muq"][a], 1e-9, ma, {"a": a})
+    return goals
+
+
 # ---------------------------------------------------------------- the property, independently
 def exact_posterior(case, out):
     """Closed form in exact rationals from the implementation's own matrices."""
@@ -344,10 +599,11 @@ def exact_posterior(case, out):
     return mean, cov
 
 
-def oracle(case, out):
+def oracle(case, out, extra_m=0.0, extra_v=0.0):
     """Evaluate C02 itself on the implementation's outputs; list of failures."""
     bad = []
     t = tolerances(case, out)
+    t = dict(t, m=t["m"] + extra_m, v=t["v"] + extra_v)
     tm, tv = Fraction(t["m"]), Fraction(t["v"])
     mean, cov = exact_posterior(case, out)
     for name in ("call_mean", "post_mean", "mean_only"):
@@ -368,6 +624,75 @@ def oracle(case, out):
         if out["post_cov"][i, i] < -t["v"]:
             bad.append(f"negative predictive variance {out['post_cov'][i, i]}")
     return bad
+
+
+def translation_oracle(case, out):
+    """Offset data: C02 with THE covariance function, whose matrices are -- by theorem
+    C02_gp_inputs_translation_invariant -- those of the same data moved back to the
+    origin.  The regressor is run on the origin counterpart, the kernel matrices its
+    kernel object returns there replace the ones returned on the offset data, and the
+    closed form (exact rationals) must reproduce what the regressor returned on the
+    offset data.  Mean-function values are the offset run's own."""
+    if not case.get("shift"):
+        return []
+    c0 = origin_case(case)
+    o0 = run_impl(c0)
+    if o0["status"] != "ok":
+        return [f"data moved back to the origin by {case['shift']}: {o0.get('error')}"]
+    n, d, b = case["n"], case["d"], case["b"]
+    x = MX.unhex(case["x"], (n, d))
+    p = MX.unhex(case["points"], (b, d))
+    relq = max([rel_allowance(case, p[a], x[j]) for a in range(b) for j in range(n)]
+               + [rel_allowance(case, p[a], p[c]) for a in range(b) for c in range(b)])
+    relx = max(rel_allowance(case, x[i], x[j]) for i in range(n) for j in range(n))
+    t = tolerances(case, out)
+    bad = []
+    amax = float(np.abs(o0["K_xx"]).max())
+    dK = float(np.abs(out["K_xx"] - o0["K_xx"]).max())
+    if dK > (1e-9 + relx) * amax:
+        bad.append(f"K_xx changes by {dK:.3e} when training points are translated by {case['shift']}")
+    # what coordinate-level round-off may do to the posterior (see rel_allowance): through K_qx / K_qq
+    # directly, through K_xx amplified by the conditioning (cond <= 1e4 by construction)
+    amp = 4 * relq + 2 * COND_MAX * dK / max(amax, 1e-300)
+    hyb = dict(out, K_xx=o0["K_xx"], K_qx=o0["K_qx"], K_qq=o0["K_qq"], kqq_pt=o0["kqq_pt"])
+    sm, sv = t["m"] / 1e-7, t["v"] / 1e-7
+    for msg in oracle(case, hyb, extra_m=amp * sm, extra_v=amp * sv):
+        bad.append(f"offset data (shift {case['shift']}), kernel matrices of the data moved back to the origin: " + msg)
+    return bad
+
+
+def builder_oracle(case, out):
+    """C02 with the cross-covariances taken from the kernel's OTHER evaluation path: a fresh
+    kernel object is given the training and query points together and build_covariance
+    (differences pre-computed by pass_spatial_data) supplies K_qx and the off-diagonal of
+    K_qq -- by C10_builder_eq_pairwise the same numbers as __call__, the documented diagonal
+    terms aside.  The closed form with these must reproduce the regressor's outputs; this
+    turns an inconsistency between __call__ and build_covariance into a failing input.
+    (HeteroscedasticNoise has one parameter per training point: no joint matrix.)"""
+    if MX.kernel_has(case["kernel"], "HN"):
+        return []
+    n, d, b = case["n"], case["d"], case["b"]
+    x = MX.unhex(case["x"], (n, d))
+    p = MX.unhex(case["points"], (b, d))
+    try:
+        with warnings.catch_warnings():
+            warnings.simplefilter("ignore")
+            cov = MX.make_kernel(case["kernel"])
+            cov.pass_spatial_data(np.vstack([x, p]))
+            J = np.array(cov.build_covariance(cov_hyperpars(case)), dtype=float)
+    except Exception as e:
+        return [f"build_covariance on training + query points: {type(e).__name__}: {e}"]
+    if J.shape != (n + b, n + b) or not np.all(np.isfinite(J)):
+        return ["build_covariance on training + query points: wrong shape / not finite"]
+    Kqq = np.array(out["K_qq"], dtype=float)
+    off = ~np.eye(b, dtype=bool)
+    Kqq[off] = J[n:, n:][off]
+    hyb = dict(out, K_qx=J[n:, :n], K_qq=Kqq)
+    relq = max([rel_allowance(case, p[a], x[j]) for a in range(b) for j in range(n)]
+               + [rel_allowance(case, p[a], p[c]) for a in range(b) for c in range(b)])
+    t = tolerances(case, out)
+    return ["cross-covariances from build_covariance on training + query points: " + m
+            for m in oracle(case, hyb, extra_m=4 * relq * t["m"] / 1e-7, extra_v=4 * relq * t["v"] / 1e-7)]
 
 
 def metamorphic(case, out, r):
@@ -415,19 +740,88 @@ def metamorphic(case, out, r):
 # ---------------------------------------------------------------- driver
 def describe(case):
     return {k: case.get(k) for k in ("n", "d", "b", "x", "y", "points", "kernel", "mean", "hyperpars",
-                                     "first_hyperpars", "err", "x_form", "p_form")}
+                                     "first_hyperpars", "err", "x_form", "p_form", "shift")}
+
+
+def kernel_value_goals(rep, tier, cases, outs, ok_idx, suspicious):
+    """The coq-interval part of the correspondence; returns {case index: failing goals}."""
+    # kernel / mean values against the real-valued models at the exact coordinates (coq-interval):
+    # every offset case, every fourth case near the origin
+    rg = C.rng_for(PROP, "kernel-goals")
+    big = {"Kqx": 3, "Kqq": 1, "kqq_pt": 1, "Kxx": 1, "mu": 1, "muq": 1}
+    small = {"Kqx": 1, "Kqq": 1, "kqq_pt": 0, "Kxx": 1, "mu": 0, "muq": 1}
+    if tier != "quick":
+        big = {"Kqx": 4, "Kqq": 2, "kqq_pt": 1, "Kxx": 2, "mu": 1, "muq": 1}
+    defs, goals, gmeta = [KCASES_HEADER], [], {}
+    for k in ok_idx:
+        if not (cases[k].get("shift") or k % 4 == 0):
+            continue
+        defs.append(kcase_defs(cases[k], k))
+        budget = dict(big if cases[k].get("shift") else small)
+        if cases[k]["mean"] == "const":         # the model value is theta[0] itself: one goal is plenty
+            budget["mu"] = 0
+        for gid, stmt, meta in kernel_goals(cases[k], outs[k], k, rg, budget):
+            goals.append((gid, stmt, None))
+            gmeta[gid] = meta
+            rep.count("kernel-goal=" + meta["kind"] + (" (offset data)" if cases[k].get("shift") else ""))
+    gd = C.GEN / PROP
+    gd.mkdir(parents=True, exist_ok=True)
+    (gd / "KCases.v").write_text("\n".join(defs) + "\n")
+    rc, log, _ = C.sh(["timeout", "600", "coqc"] + C.COQFLAGS + [str(gd / "KCases.v")], timeout=660)
+    kernel_fail = {}
+    if rc != 0:
+        rep.obligation(False)
+        rep.violation("C02/correspondence-run", "generated kernel-case definitions do not compile",
+                      {"theorem_or_correspondence": "coq/gen/C02/KCases.v", "log": log[-1500:]}, False)
+    else:
+        failed, broken = I.check_goals(PROP, "kgoals", goals, preamble=KPREAMBLE, unfold="kcbv;",
+                                       chunk=max(12, min(150, len(goals) // 12 + 1)), jobs=12, timeout=1500)
+        rep.obligation(True, len(goals) - len(failed))
+        rep.obligation(False, len(failed))
+        for bl in broken:
+            rep.obligation(False)
+            rep.violation("C02/correspondence-run", "a kernel-goal file could not be processed",
+                          {"theorem_or_correspondence": "coq/gen/C02/kgoals_*.v", "log": bl[-1500:]}, False)
+        for gid, _log in failed:
+            m = gmeta[gid]
+            kernel_fail.setdefault(m["case"], []).append(m)
+        for k, ms in kernel_fail.items():
+            txt = ("the kernel / mean values used inside the regressor differ from the covariance / mean function "
+                   "at the coordinates: " + ", ".join(f"{m['kind']}{[m[i] for i in ('a', 'b', 'i', 'j') if i in m]}"
+                                                      for m in ms[:4]))
+            suspicious[k] = (suspicious[k] + "; " if k in suspicious else "") + txt
+    rep.coverage["kernel_goals"] = len(goals)
+    rep.coverage["kernel_goals_failed"] = sum(len(v) for v in kernel_fail.values())
+    return kernel_fail
 
 
 def run(rep: C.Report, tier: str) -> int:
     r = C.rng_for(PROP, "cases")
+    ro = C.rng_for(PROP, "offsets")
     n_cases = 150 if tier == "quick" else 1500
     C.clean_gen(PROP)
     C.prove_and_audit(rep, PROP, THEOREMS)
+    try:
+        info = C.coq_audit(PROP + "_kernel", KERNEL_THEOREMS, "IT.Properties.C02Kernel")
+        rep.obligation(True, len(KERNEL_THEOREMS))
+        rep.coverage["kernel_translation_audit"] = info
+    except C.ProofFailure as e:
+        rep.obligation(False, len(KERNEL_THEOREMS))
+        rep.violation("C02/proof", f"proof obligation no longer checks: {e.what}",
+                      {"theorem_or_correspondence": e.what, "log": e.log[-1500:]}, False)
+
+    try:      # the executable list-of-Q instance refines the MathComp instance (Matrix/Refinement*.v)
+        info = C.coq_audit(PROP + "_refinement", REFINEMENT_THEOREMS, "IT.Properties.GpRefinement")
+        rep.obligation(True, len(REFINEMENT_THEOREMS))
+        rep.coverage["refinement_audit"] = info
+    except C.ProofFailure as e:
+        rep.obligation(False, len(REFINEMENT_THEOREMS))
+        rep.violation("C02/proof", f"proof obligation no longer checks: {e.what}",
+                      {"theorem_or_correspondence": e.what, "log": e.log[-1500:]}, False)
 
     cases, outs = [], []
-    for k in range(n_cases):
-        case = gen_case(r, k, tier)
-        out = run_impl(case)
+
+    def register(case, out):
         cases.append(case)
         outs.append(out)
         rep.count(f"n={case['n']}")
@@ -439,13 +833,36 @@ def run(rep: C.Report, tier: str) -> int:
                   + ("/full" if case["err"]["kind"] == "y_cov" and "diag_of_y_err" not in case["err"] else ""))
         rep.count("cond<=1e%d" % max(0, math.ceil(math.log10(case["cond"]))))
         rep.count("hyperpars via " + ("set_hyperparameters" if case.get("first_hyperpars") else "constructor"))
+        if case.get("shift"):
+            cm = max(abs(v) for v in case["shift"])
+            rep.count("largest coordinate offset 2^%d..2^%d" % (5 * (int(math.log2(cm)) // 5), 5 * (int(math.log2(cm)) // 5) + 5))
+            rep.count("offset data: kernel=" + MX.kernel_name(case["kernel"]))
+            rep.count("offset data: mean=" + case["mean"])
+        else:
+            rep.count("coordinates near the origin")
         rep.case(describe(case), nontrivial=True)
+
+    for k in range(n_cases):
+        case = gen_case(r, k, tier)
+        out = run_impl(case)
+        register(case, out)
         if k < 3:
             rep.sample({"config": {"n": case["n"], "d": case["d"], "b": case["b"],
                                    "kernel": MX.kernel_name(case["kernel"]), "mean": case["mean"],
                                    "errors": case["err"]["kind"] + "/" + case["err"]["container"],
                                    "cond": case["cond"]},
                         "impl_call_mean": out.get("call_mean"), "impl_call_sigma": out.get("call_sig")})
+        if k % 5 in (1, 3):
+            # the same configuration on offset data (5 and 11 are coprime: every kernel, mean and
+            # error kind is met); a regressor that fails at the origin (D11 / D12) is not repeated
+            if out["status"] == "ok":
+                tc = gen_shift(ro, case)
+                to = run_impl(tc)
+                register(tc, to)
+                if len([c for c in cases if c.get("shift")]) <= 2:
+                    rep.sample({"config": {"kernel": MX.kernel_name(tc["kernel"]), "mean": tc["mean"],
+                                           "shift": tc["shift"], "x": MX.unhex(tc["x"]).tolist()},
+                                "impl_call_mean": to.get("call_mean"), "impl_call_sigma": to.get("call_sig")})
 
     suspicious = {}            # case index -> reason
     ok_idx = [k for k, o in enumerate(outs) if o["status"] == "ok"]
@@ -470,7 +887,13 @@ def run(rep: C.Report, tier: str) -> int:
                 ";\n  ".join(coq_case(cases[k], outs[k]) for k in bucket) + "].")
         files.append(C.write_case_file(PROP, f"cases_{j}", HEADER, body, ["failing_gp cases"]))
         index.append(bucket)
-    results = C.run_case_files(files, jobs=16, timeout=1500)
+    # the exact-rational files run in the background while the interval goals are generated and checked
+    from concurrent.futures import ThreadPoolExecutor
+    bg = ThreadPoolExecutor(max_workers=1)
+    results_future = bg.submit(C.run_case_files, files, 10, 1500)
+    kernel_fail = kernel_value_goals(rep, tier, cases, outs, ok_idx, suspicious)
+    results = results_future.result()
+    bg.shutdown()
     n_checked = 0
     obligation_fail = {}
     for p, idx, (ok, res, log) in zip(files, index, results):
@@ -486,15 +909,18 @@ def run(rep: C.Report, tier: str) -> int:
             if fo:
                 rep.obligation(False, len(fo))
                 obligation_fail[k] = fo
-                suspicious[k] = "; ".join(OBLIGATION_NAMES[o] for o in fo)
+                suspicious[k] = ((suspicious[k] + "; " if k in suspicious else "")
+                                 + "; ".join(OBLIGATION_NAMES[o] for o in fo))
         n_checked += len(idx)
     rep.coverage["cases_validated_against_impl"] = n_checked
-    rep.coverage["correspondence_disagreements"] = len(suspicious)
     rep.coverage["obligations_per_case"] = OBLIGATION_NAMES
+
+    rep.coverage["correspondence_disagreements"] = len(suspicious)
 
     # failing-input search on every disagreement
     rs = C.rng_for(PROP, "search")
-    for k in sorted(suspicious)[:12]:
+    # offset cases first: there the origin counterpart gives the sharpest oracle
+    for k in sorted(suspicious, key=lambda k: (not cases[k].get("shift"), k))[:12]:
         case, out = cases[k], outs[k]
         if out["status"] != "ok":
             key = "C02/exception"
@@ -505,49 +931,73 @@ def run(rep: C.Report, tier: str) -> int:
             rep.violation(key, f"GpRegressor failed on a valid input ({suspicious[k]})",
                           {"case": describe(case), "impl": {k2: out[k2] for k2 in ("status", "stage", "error")}}, True)
             continue
-        bad = oracle(case, out) + metamorphic(case, out, rs)
+        bad = oracle(case, out) + translation_oracle(case, out) + builder_oracle(case, out) + metamorphic(case, out, rs)
         if bad:
             rep.violation("C02/property", "; ".join(bad[:3]),
                           {"case": describe(case), "failing_obligations": obligation_fail.get(k),
+                           "failing_kernel_goals": kernel_fail.get(k),
                            "impl_output": {n_: out[n_] for n_ in ("call_mean", "call_sig", "post_mean", "mean_only")}},
                           True)
         else:
             rep.violation("C02/correspondence",
                           "implementation and model disagree (" + suspicious[k] +
                           "), but the property was not seen to fail on this input",
-                          {"theorem_or_correspondence": "Matrix.GpCheck.check_gp (correspondence with GpRegressor)",
-                           "failing_obligations": obligation_fail.get(k), "case": describe(case)}, False)
+                          {"theorem_or_correspondence": "Matrix.GpCheck.check_gp (correspondence with GpRegressor)"
+                           if k not in kernel_fail else
+                           "coq-interval goals gp_Kxx / gp_Kqx / gp_Kqq / gp_mu / gp_muq of coq/gen/C02 (kernel values "
+                           "inside GpRegressor against RealModel/Kernels.v, RealModel/Means.v)",
+                           "failing_obligations": obligation_fail.get(k),
+                           "failing_kernel_goals": kernel_fail.get(k), "case": describe(case)}, False)
 
     # second opinion [R]: the property oracle and the metamorphic relations on a slice of agreeing cases
     n_meta = 0
     for k in ok_idx[::5 if tier == "quick" else 3]:
         if k in suspicious:
             continue
-        bad = oracle(cases[k], outs[k]) + metamorphic(cases[k], outs[k], rs)
+        bad = oracle(cases[k], outs[k]) + builder_oracle(cases[k], outs[k]) + metamorphic(cases[k], outs[k], rs)
         n_meta += 1
         if bad:
             rep.violation("C02/property", "; ".join(bad[:3]), {"case": describe(cases[k])}, True)
     rep.coverage["metamorphic_runs"] = n_meta
+    # ... and the origin-counterpart oracle on every offset case
+    n_tr = 0
+    for k in ok_idx:
+        if k in suspicious or not cases[k].get("shift"):
+            continue
+        bad = translation_oracle(cases[k], outs[k])
+        n_tr += 1
+        if bad:
+            rep.violation("C02/property", "; ".join(bad[:3]), {"case": describe(cases[k])}, True)
+    rep.coverage["translation_oracle_runs"] = n_tr
 
     rep.assumptions = [
         "SciPy/LAPACK cholesky and solve_triangular are exact in the theorems (L L^T = K_xx+S, L invertible); "
         "the run checks L L^T = K_xx + S to 1e-12*max|A| on the implementation's own self.L and compares "
         "every output to 1e-7*scale; inputs are conditioned (cond <= 1e4)",
-        "kernel and mean-function VALUES are inputs of the model (tied to the code by C10)",
+        "kernel and mean-function VALUES are inputs of the matrix model; they are tied to the coordinates by "
+        "coq-interval goals against RealModel/Kernels.v / Means.v on sampled entries (tolerance 1e-9 relative + "
+        "1e-11*scale + 16 ulp of the coordinates propagated through the kernel), gradients etc. by C10",
         "ListOps (list-of-Q instance, verified Bareiss inverse) implements the same algebra as the MathComp "
         "instance the theorems are about: not proved, see DESIGN 2.3",
         "sqrt in `sqrt(abs(errs))` is compared through sigma^2",
     ]
     return rep.finish(
         level="proof",
-        checker_cmd="make -C /verif/coq (coqc 8.16.1, full .vo) + coqc on coq/gen/C02/*.v (vm_compute)",
-        trusted_base=C.KERNEL_TB + ["axioms: none (all C02 theorems are closed under the global context)",
-                                    "Matrix/ListOps.v (executable matrix instance; inverse verified at run time)"],
+        checker_cmd="make -C /verif/coq (coqc 8.16.1, full .vo) + coqc on coq/gen/C02/*.v (vm_compute; coq-interval "
+                    "`interval` for the kernel-value goals)",
+        trusted_base=C.KERNEL_TB + ["axioms: none for Properties/C02.v (closed under the global context); "
+                                    "Properties/C02Kernel.v uses the standard-library real-number axioms",
+                                    "Matrix/ListOps.v (executable matrix instance; inverse verified at run time)",
+                                    "coq-interval 4.x reflexive interval evaluator (Uint63 / Bignums primitives)"],
         rule="configurations walk the grid kernel (11: SE, RQ, +WhiteNoise, +HeteroscedasticNoise, SE+RQ, SE+SE+WN, "
              "2- and 3-kernel ChangePoint) x mean (3) x errors (none, y_err array/list, diagonal y_cov "
              "array/list/tuple, full y_cov array/list); n 2..8, d 1..3, 1..5 query points (training points, "
              "interior, far outside), x / points as 2-D array, 1-D array or list; hyper-parameters resampled "
-             "until cond(K_xx+S) <= 1e4; every case is non-trivial; distinct = distinct configurations")
+             "until cond(K_xx+S) <= 1e4; two fifths of the configurations are repeated on OFFSET DATA: an integer "
+             "vector with entries +-[2^e, 2^(e+1)), e uniform in 10..30 per coordinate, is added (exactly) to all "
+             "training and query points and to the change-point locations; kernel / mean values of every offset "
+             "case and every fourth other case become coq-interval goals; every case is non-trivial; "
+             "distinct = distinct configurations")
 
 
 def replay(path):
@@ -563,7 +1013,8 @@ def replay(path):
     if out["status"] != "ok":
         print("implementation fails:", out)
         return 1
-    bad = oracle(case, out) + metamorphic(case, out, C.rng_for(PROP, "replay"))
+    bad = (oracle(case, out) + translation_oracle(case, out) + builder_oracle(case, out)
+           + metamorphic(case, out, C.rng_for(PROP, "replay")))
     print("implementation returns: call_mean", out["call_mean"], "call_sigma", out["call_sig"])
     print("property failures:", bad)
     return 1 if bad else 0
